@@ -30,3 +30,125 @@ Definition bind_blk (x : ost * res unit) (f : ost -> ost * res unit) : ost * res
   | (st, Err e) => (st, Err e)
   | (st, OutOfFuel) => (st, OutOfFuel)
   end.
+
+(* ================= second group of methods (extend_sequences, extend_matrix, remove/discard/keep, new_sequence, __getitem__, fill,
+   pack, export_character_indices, export_character_subset) ================= *)
+
+(* sequencing in a method that returns a value *)
+Definition bind_blkA {A} (x : ost * res unit) (f : ost -> ost * res A) : ost * res A :=
+  match x with
+  | (st, Ok _) => f st
+  | (st, Err e) => (st, Err e)
+  | (st, OutOfFuel) => (st, OutOfFuel)
+  end.
+
+(* the value of a call of a translated method is used by the rest of the block *)
+Definition bind_val {A B} (x : ost * res A) (f : ost -> A -> ost * res B) : ost * res B :=
+  match x with
+  | (st, Ok v) => f st v
+  | (st, Err e) => (st, Err e)
+  | (st, OutOfFuel) => (st, OutOfFuel)
+  end.
+
+(* a call statement: the value is dropped *)
+Definition drop_val {A} (x : ost * res A) : ost * res unit :=
+  match x with
+  | (st, Ok _) => (st, Ok tt)
+  | (st, Err e) => (st, Err e)
+  | (st, OutOfFuel) => (st, OutOfFuel)
+  end.
+
+(* try: <block> except <E>: pass      catches exactly E; what the block did before raising stays *)
+Definition catch_err (e : err) (x : ost * res unit) : ost * res unit :=
+  match x with
+  | (st, Err e') => if err_eqb e' e then (st, Ok tt) else (st, Err e')
+  | _ => x
+  end.
+
+(* self._taxon_sequence_map[taxon] as an expression: the STORED object itself (None: KeyError) *)
+Definition map_get (st : ost) (taxon : tid) : option rid := aget taxon (snd st).
+
+(* del self._taxon_sequence_map[taxon]: the map only, no object is touched *)
+Definition map_del (st : ost) (taxon : tid) : ost * res unit :=
+  if ahas taxon (snd st) then ((fst st, adel taxon (snd st)), Ok tt) else (st, Err KeyErr).
+
+(* tuple(self._taxon_sequence_map.keys()): a snapshot of the keys in insertion order *)
+Definition map_keys (st : ost) : list tid := map fst (snd st).
+
+(* for k in self  (CharacterMatrix.__iter__: the taxa of the namespace, in namespace order, that have a row;
+   the generator checks the body of __iter__).  Evaluated at loop entry: the translated loops over it do not
+   add or delete keys. *)
+Definition map_iter (T : list tid) (st : ost) : list tid := map fst (oitems T (snd st)).
+
+(* for vec in m.values()  on a local matrix m  (values: `for t in self: yield self[t]`, checked by the generator;
+   self[t] on an existing key is the STORED object): the objects themselves, in namespace order - an object
+   stored under two taxa is visited twice *)
+Definition mat_values (T : list tid) (m : orows) : list rid := map snd (oitems T m).
+
+(* len(x) of a row object *)
+Definition row_len (st : ost) (x : rid) : Z := zlen (hget (fst st) x).
+
+(* x.extend(y), x and y row objects: CharacterDataSequence.extend materialises its argument first
+   (`character_values = list(character_values)`, checked by the generator), then extends the value list of the
+   object x IN PLACE; y (and every other object) is not touched; x = y doubles the row *)
+Definition row_extend (st : ost) (x y : rid) : ost :=
+  (mutate (fst st) x (hget (fst st) x ++ hget (fst st) y), snd st).
+
+(* x.append(v)  /  x.insert(0, v): in place on the object x *)
+Definition row_append (st : ost) (x : rid) (v : cell) : ost :=
+  (mutate (fst st) x (py_seq_append (hget (fst st) x) v), snd st).
+Definition row_insert0 (st : ost) (x : rid) (v : cell) : ost :=
+  (mutate (fst st) x (py_seq_insert0 (hget (fst st) x) v), snd st).
+
+(* del x[i]: in place on the object x; IndexError leaves it as it is *)
+Definition row_del (st : ost) (x : rid) (i : Z) : ost * res unit :=
+  match py_seq_del (hget (fst st) x) i with
+  | Ok c => ((mutate (fst st) x c, snd st), Ok tt)
+  | Err e => (st, Err e)
+  | OutOfFuel => (st, OutOfFuel)
+  end.
+
+(* self.max_sequence_size (property over _get_max_sequence_size, body checked by the generator; reads only) *)
+Definition max_size_st (T : list tid) (st : ost) : Z := max_sequence_size T (deref (fst st) (snd st)).
+
+(* clone = self.__class__(self):  CharacterMatrix.__init__ with ONE positional CharacterMatrix argument calls
+   self._clone_from(args[0], kwargs), which does `t = copy.deepcopy(src, memo)`; `self.__dict__ = t.__dict__`
+   (the generator checks both routes, that CharacterMatrix.__deepcopy__ is the generic Annotable one and that
+   CharacterDataSequence does not customise copying).  TRUSTED MEANING of copy.deepcopy on the row map: every row
+   object is copied exactly once (memo), so two taxa sharing an object in the source share ONE new object in the
+   clone, and no object of the clone is an object of the source.  The receiver's map is not changed; the result
+   is the clone's map. *)
+Definition deepcopy_st (st : ost) : ost * orows :=
+  let '(s', cr) := o_deepcopy_rows (fst st) [] (snd st) in ((s', snd st), cr).
+
+(* clone = copy.copy(self):  CharacterMatrix.__copy__ stores the SAME row objects in a new matrix
+   (`other._taxon_sequence_map[taxon] = self._taxon_sequence_map[taxon]`, checked by the generator) *)
+Definition shallow_copy_st (st : ost) : orows := snd st.
+
+(* ================= the classmethod concatenate: the arguments are matrices (omatrix) read through the store; the
+   receiver role is played by the local matrix made by `cls(taxon_namespace=ns)` ================= *)
+
+(* cls(taxon_namespace=ns): CharacterMatrix.__init__ without positional argument starts from an empty
+   _taxon_sequence_map (checked by the generator); no row object is created *)
+Definition new_matrix_st (s : store) : ost := (s, []).
+
+(* m[key] on an ARGUMENT matrix whose row exists: the stored object.  (__getitem__ CREATES a row otherwise; the
+   translated code never relies on that: the creating branch is answered AssertErr, as in o_concat_loop.) *)
+Definition arg_getitem_ro (T : list tid) (m : omatrix) (k : key) : res rid :=
+  match resolve_key T k with
+  | Ok t => match aget t (om_rows m) with Some r => Ok r | None => Err AssertErr end
+  | Err e => Err e
+  | OutOfFuel => OutOfFuel
+  end.
+
+(* m.items() on an argument: (taxon, stored object) in namespace order (body of items checked by the generator) *)
+Definition arg_items (T : list tid) (m : omatrix) : list (tid * rid) := oitems T (om_rows m).
+
+(* m.vector_size (property over _get_sequence_size, checked): the length of the FIRST INSERTED row, read through
+   the store as it is now; 0 without rows *)
+Definition arg_vector_size (st : ost) (m : omatrix) : Z := vector_size (deref (fst st) (om_rows m)).
+
+(* <local matrix>.new_character_subset(label=l, character_indices=idx): caseless duplicate -> ValueError, else
+   appended (bodies of new_character_subset / add_character_subset checked); the rows are not touched *)
+Definition subs_new (lower : lbl -> lbl) (ss : subsets) (l : lbl) (idx : list Z) : res subsets :=
+  if has_key lower l ss then Err ValueErr else Ok (ss ++ [(l, idx)]).
